@@ -25,19 +25,6 @@ Section SortMap.
   Qed.
 End SortMap.
 
-Lemma omap'_forall2 {A B} (f : A -> option B) xs ys :
-  Forall2 (fun x y => f x = Some y) xs ys -> omap' f xs = Some ys.
-Proof. induction 1 as [|x y xs ys H F IH]; cbn; [reflexivity|]. rewrite H, IH. reflexivity. Qed.
-
-Lemma omap'_forall2_inv {A B} (f : A -> option B) xs ys :
-  omap' f xs = Some ys -> Forall2 (fun x y => f x = Some y) xs ys.
-Proof.
-  revert ys. induction xs as [|x xs IH]; cbn; intros ys H.
-  - injection H as <-. constructor.
-  - destruct (f x) as [y|] eqn:E; [|discriminate]. destruct (omap' f xs) as [ys'|]; [|discriminate].
-    injection H as <-. constructor; [exact E | apply IH; reflexivity].
-Qed.
-
 Lemma find_of_existsb {A} (p : A -> bool) l : existsb p l = true -> exists x, find p l = Some x.
 Proof.
   induction l as [|a r IH]; cbn; [discriminate|]. destruct (p a); [eauto | exact IH].
@@ -61,9 +48,10 @@ Section StepMacro.
       member_ckey (heap (r_st r)) j = Some k /\ obj_name (heap (r_st r)) j = x /\
       member_form (heap (r_st r)) j = Some (false, [k]).
   Proof.
-    intros [C B] Hx. destruct (assoc_some x _ Hx) as [[names sst] Ea].
-    pose proof (assoc_in _ _ _ Ea) as Hin. apply decl_cplx_in in Hin. destruct Hin as [conc Hin].
-    destruct (B _ Hin) as [i [es [cdict [cn [e [D1 [Hne [_ [D3 [D4 [D5 _]]]]]]]]]]].
+    intros SI Hx. destruct (assoc_some x _ Hx) as [[names sst] Ea].
+    pose proof (assoc_in _ _ _ Ea) as Hin.
+    destruct (decl_cplx_built ct cd cs cc cm cr prev r acc x names sst SI Hin)
+      as [conc [i [es [cdict [cn [e [D1 [Hne [_ [D3 [D4 [D5 _]]]]]]]]]]]].
     exists i, cn. split; [exact D1|]. split; [exact Hne|].
     split; [unfold ckey_of; rewrite Ea, D3, D4; reflexivity|].
     unfold member_ckey, obj_name, member_form. rewrite D5. cbn. auto.
@@ -196,6 +184,7 @@ Section StepMacro.
       + eapply Forall2_impl'; [|exact F]. cbn. intros x mk [A1 [A2 _]]. split; [exact A1|].
         exact (later_member_ckey _ _ _ _ _ _ L' A2).
       + cbn [r_st hold heap]. rewrite heap_mk_new. apply hget_new.
+    - intros n0 names0 sst0 [].
     - eauto.
   Qed.
 End StepMacro.
